@@ -4,6 +4,7 @@ import SciVerif.Tie.C20Sem
 import SciVerif.Model.Components
 import SciVerif.Tie.ProcSem
 import SciVerif.Tie.RunSem
+import SciVerif.Model.Chan
 /-!
 Line-protocol driver (Tie B): one request per line on stdin (tab separated), one response line.
 It runs the *executable models*, instantiated with the semantics records Tie A regenerated from
@@ -236,6 +237,26 @@ partial def dfs (sem : ProcSem) (n : Nat) (s : PSt) (next : Nat) (path : List St
           (r.1, acc.2 + r.2)) (none, 1)
 end ProcSearch
 
+/-! ## channel model: exhaustive interleavings for small parameters (search support only) -/
+namespace ChanSearch
+open Chan
+
+partial def explore (B : Nat) (streams : List (List Nat)) (st : ChSt) (seen : List ChSt) : List ChSt × Option String :=
+  if seen.contains st then (seen, none) else
+  let seen := st :: seen
+  let labels : List Label := [.recv] ++ (List.range streams.length).flatMap fun s => [.send s, .close s]
+  let succs := labels.filterMap fun l => step B st l
+  if succs.isEmpty then
+    -- terminal: must be finished with everything delivered in per-sender order
+    let ok := finished st && (List.range streams.length).all fun s => ((st.got.filter (·.1 = s)).map (·.2)) == streams.getD s []
+    (seen, if ok then none else some s!"stuck-or-lossy got={repr st.got} todo={repr st.todo}")
+  else
+    succs.foldl (fun (acc : List ChSt × Option String) s' =>
+      match acc.2 with
+      | some _ => acc
+      | none => explore B streams s' acc.1) (seen, none)
+end ChanSearch
+
 def handle (line : String) : String :=
   match line.splitOn "\t" with
   | ["sem"] => semLine
@@ -362,6 +383,15 @@ def handle (line : String) : String :=
       let g := (gs.toArray.qsort (· < ·)).toList
       s!"started gs={",".intercalate (g.map toString)} driver={match d with | some x => toString x | none => "sink"} sink={b}"
   | ["run.sem"] => s!"skipSelf={runSem.skipSelf};driverRemovedFromArg={runSem.driverRemovedFromArg};singleProcKept={runSem.singleProcKept};driverReadyChecked={runSem.driverReadyChecked};sinkWaited={runSem.sinkWaited};readyBeforeStart={runSem.readyBeforeStart}"
+  | ["chan.search", b, streams] =>
+    let ss := (if streams.isEmpty then [] else streams.splitOn ";").map parseNats
+    let r := ChanSearch.explore b.toNat! ss (Chan.init ss) []
+    match r.2 with
+    | none => s!"ok states={r.1.length}"
+    | some w => s!"bad states={r.1.length} {w}"
+  | ["createtasks", ports] =>
+    let ps := (if ports.isEmpty then [] else ports.splitOn ";").map fun p => if p == "-" then [] else parseNats p
+    ";".intercalate ((Chan.createTasks 1000 ps).map fun t => ",".intercalate (t.map toString))
   | ["task.c01search"] =>
     match TaskSim.c01Search taskSem with
     | none => "none"
